@@ -7,7 +7,7 @@ jump changes", that Reset/Cancel restore bytes and behaviour of everything the b
 map iteration may cancel), idempotence of Reset, re-mock after Reset, and non-interference between targets.  The jump
 emitter and the NOP-sentinel test inside the model are the definitions regenerated from the Go source on every run (tie T).
 
-Tie X: a virtual user package (harness/c02) with 17 targets (functions, methods, an unexported function, a generic instantiation, func literals and a closure held in variables, a method family ending in the letters of the -fm suffix) runs generated histories through goom's public API; after EVERY
+Tie X: a virtual user package (harness/c02) with 20 targets (functions, methods, unexported functions, two instantiations of a generic, func literals and a closure held in variables, a method family ending in the letters of the -fm suffix, a namesake type and a namesake function in a second package) runs generated histories through goom's public API; after EVERY
 step the probe compares the whole executable image of its own process with a snapshot taken before the first step and calls
 every target and three untouched neighbours; `goomdrv` predicts the same line from the model.  The oracle below states the
 property on the implementation's observations without using the model.
@@ -41,17 +41,40 @@ META = {
                   'Guard.Restore/UnpatchAll, concurrency (C11). Kept mocker handles (keep / Apply / Return / Cancel through the handle, every via incl. by-name and method values) '
                   'and the two-level Struct(x) -> Method(m)/ExportMethod(m) lookup with a kept struct mocker are modelled ops (plus the older oracle-only lane c02.stale, defect F16); the generators never look a function up afresh while its '
                   'kept handle is cancelled: that orphans the handle (the builder replaces its cache entry, Reset cannot reach the old mocker) — '
-                  'recorded in Findings/C02Orphan.lean.',
+                  'known finding F27-c02-orphan, exercised in its own lane (the main lane keeps the restriction so that every other violation stays visible). '
+                  'Same-gc-shape generic instantiations share one body: known finding F28-c02-gcshape (lane c02.shape). Faithful instances need builder ids < 100 and target ids < 1000.',
 }
 
 GEN = ['JmpAmd64']
-NT, NP = 17, 4
-T_METHODS = {7, 8, 9}               # methods of T: Struct(&T{}).Method / ExportMethod, method expression, by name, method value
+NT, NP = 20, 4
+T_METHODS = {7, 8, 9}               # methods of T: Struct(&T{}).Method / ExportMethod, ExportStruct("*T").Method, method expression, by name, method value
 L_METHODS = {12, 13, 14, 15, 16}    # the family Add / Addf / Addm / Addfm / Addmf of L: method expression, by name, method value
+S_METHODS = {17}                    # M7 of the namesake type T of a second package (same Type.String()): Struct(&sub.T{}).Method, expression, value
 LITERALS = {10, 11}                 # func literal in a package variable, closure capturing a variable: Func(variable)
-METHODS = T_METHODS | L_METHODS
-VIAS = {0: 'fe', 1: 'fe', 2: 'fe', 3: 'fe', 4: 'fe', 5: 'f', 6: 'fe', 7: 'fmeuv', 8: 'fmeuv', 9: 'feuv', 10: 'f', 11: 'f',
-        12: 'fevv', 13: 'fevv', 14: 'fevv', 15: 'fevv', 16: 'fevv'}
+GENERICS = {5, 18}                  # one generic function instantiated at int and at int64 (different shapes, same name)
+METHODS = T_METHODS | L_METHODS | S_METHODS
+VIAS = {0: 'fe', 1: 'fe', 2: 'fe', 3: 'fe', 4: 'fe', 5: 'f', 6: 'fe', 7: 'fmeuvx', 8: 'fmeuvx', 9: 'feuvx', 10: 'f', 11: 'f',
+        12: 'fevv', 13: 'fevv', 14: 'fevv', 15: 'fevv', 16: 'fevv', 17: 'fmmv', 18: 'f', 19: 'p'}
+
+# goom reads these from the environment of the process it runs in (GOOM_DEBUG wraps every callback in a MakeFunc stub):
+# the probes must not inherit them from whoever calls the check
+for _k in [k for k in os.environ if k.startswith('GOOM_')]:
+    os.environ.pop(_k)
+RUN = str(os.getpid())                # scratch-file tag: concurrent runs of this check do not share ops/out files
+
+
+def _cleanup():
+    import glob
+    if not os.environ.get('VERIF_KEEP'):
+        for f in glob.glob(os.path.join(C.BUILD, f'c02.{RUN}.*')):
+            try:
+                os.remove(f)
+            except OSError:
+                pass
+
+
+import atexit
+atexit.register(_cleanup)
 
 CORPUS = [  # hand-written scenarios that always run first (1 builder unless the first token says otherwise)
     '1 | a 0 f 0 1 ; x 0 ; x 0 ; a 0 f 0 2 ; x 0',
@@ -82,6 +105,15 @@ CORPUS = [  # hand-written scenarios that always run first (1 builder unless the
     '1 | a 0 v 13 1 ; a 0 v 14 2 ; a 0 v 15 3 ; a 0 v 16 0 ; x 0',
     '1 | a 0 v 12 0 ; a 0 v 13 1 ; c 0 v 12 ; r 0 v 15 4 ; x 0 ; x 0',
     '2 | a 0 v 13 1 ; a 1 f 13 2 ; a 0 e 12 3 ; k 1 v 16 ; A 1 v 16 0 ; C 1 v 16 ; x 0 ; x 1',
+    # ExportStruct("*T").Method (its own child cache), the namesake type of the second package, a second generic instantiation,
+    # a rejected callback over a live mock, a Var mocker in the builder, builders created by a helper in another package (odd ones)
+    '1 | a 0 x 7 1 ; a 0 x 8 2 ; r 0 x 9 3 ; c 0 x 8 ; x 0 ; a 0 x 7 0 ; x 0',
+    '2 | a 0 m 7 1 ; a 1 m 17 2 ; a 0 m 17 3 ; r 1 m 7 4 ; x 1 ; x 0',
+    '2 | a 0 f 5 1 ; a 0 f 18 2 ; r 1 f 18 3 ; r 1 f 5 4 ; c 0 f 18 ; x 1 ; x 0',
+    '1 | a 0 f 0 1 ; ab 0 f 0 ; ab 0 f 3 ; r 0 f 3 1 ; ab 0 f 3 ; x 0',
+    '2 | Y 0 ; a 0 f 1 1 ; Y 1 ; a 1 e 4 2 ; a 1 e 0 3 ; x 0 ; x 1',
+    '2 | a 0 e 4 1 ; a 0 p 19 2 ; a 1 p 19 3 ; a 1 e 4 0 ; c 0 p 19 ; x 1 ; x 0',     # same name, two packages: Pkg(path).ExportFunc
+    '2 | a 1 e 4 1 ; a 1 x 7 2 ; a 1 u 9 3 ; k 1 e 2 ; A 1 e 2 0 ; x 1',
     # two-level struct lookup: K keeps sm := b.Struct(x); sa/sr/sw/sc/sk go through sm, a/r/w/c/k through a fresh b.Struct(x)
     '1 | K 0 ; a 0 m 7 1 ; sa 0 m 8 2 ; x 0 ; x 0',
     '1 | K 0 ; sa 0 m 7 1 ; a 0 m 8 2 ; sc 0 m 8 ; x 0',
@@ -90,13 +122,14 @@ CORPUS = [  # hand-written scenarios that always run first (1 builder unless the
     '1 | K 0 ; sk 0 m 8 ; A 0 m 8 1 ; C 0 m 8 ; A 0 m 8 2 ; c 0 m 8 ; x 0',
     '1 | K 0 ; K 0 ; sw 0 m 8 1 3 ; a 0 u 9 1 ; sc 0 u 9 ; sa 0 u 9 2 ; x 0',
 ]
-MALFORMED = ['1 | a 0 q 0 1', '1 | a 0 m 0 1', '1 | a 3 f 0 1', '1 | z 0', '1 | a 0 f 0 9', '1 | a 0 f 0 1 3', '1 | a 0 f 0', '1 | w 0 u 9 1', '1 | w 0 f 7 1', '1 | w 0 f 5 1', '1 | A 0 f 0 1', '1 | k 0 f 0 ; C 0 e 0', '1 | k 0 v 0', '1 | k 0 f 0 1', '1 | sa 0 m 7 1', '1 | K 0 ; sa 0 f 0 1', '1 | K 0 1', '1 | K 0 ; sa 0 e 7 1', '1 | a 0 e 10 1', '1 | a 0 m 12 1', '1 | a 0 v 12 1 3', '1 | a 0 f 17 1', '1 | a 0 v 10 1']
+MALFORMED = ['1 | a 0 q 0 1', '1 | a 0 m 0 1', '1 | a 3 f 0 1', '1 | z 0', '1 | a 0 f 0 9', '1 | a 0 f 0 1 3', '1 | a 0 f 0', '1 | w 0 u 9 1', '1 | w 0 f 7 1', '1 | w 0 f 5 1', '1 | A 0 f 0 1', '1 | k 0 f 0 ; C 0 e 0', '1 | k 0 v 0', '1 | k 0 f 0 1', '1 | sa 0 m 7 1', '1 | K 0 ; sa 0 f 0 1', '1 | K 0 1', '1 | K 0 ; sa 0 e 7 1', '1 | a 0 e 10 1', '1 | a 0 m 12 1', '1 | a 0 v 12 1 3', '1 | a 0 f 20 1', '1 | a 0 e 19 1', '1 | a 0 p 4 1', '1 | a 0 v 10 1', '1 | a 0 e 17 1', '1 | a 0 x 12 1', '1 | ab 0 e 0', '1 | Y 0 1', '1 | w 0 f 18 1', '1 | a 0 f 18 1 0', '1 | K 0 ; sa 0 m 17 1']
 
 
-def gen_history(rng, maxlen=25):
+def gen_history(rng, maxlen=25, allow_orphan=False):
     """Random history.  In about a third of them the user also keeps mocker handles (`k`) and works through them (`A`/`R`/`C`).
     Generator scope: while a kept handle is cancelled, the same (builder, via, target) is not looked up afresh — that would
-    orphan the handle (the builder replaces its cache entry), and a mocker the builder no longer knows is outside C02."""
+    orphan the handle (the builder replaces its cache entry) and Reset can no longer reach its mocks: known finding F27-c02-orphan.
+    `allow_orphan=True` (the orphan lane) lifts that restriction."""
     nb = 1 + rng.below(3)
     n = 1 + rng.below(maxlen)
     pool = sorted({rng.below(NT) for _ in range(2 + rng.below(5))})
@@ -119,6 +152,9 @@ def gen_history(rng, maxlen=25):
                 if k_[0] == b:
                     hstate[k_] = 'cancelled'
             continue
+        if rng.chance(1, 40):
+            steps.append(f'Y {b}')
+            continue
         if use_handles and rng.chance(1, 5 if struct_focus else 12):
             steps.append(f'K {b}')
             kept_structs.add(b)
@@ -134,13 +170,13 @@ def gen_history(rng, maxlen=25):
 
         def sp():
             """go through the kept struct mocker instead of a fresh b.Struct(x)"""
-            return via in 'mu' and b in kept_structs and rng.chance(1, 2)
+            return via in 'mu' and t in T_METHODS and b in kept_structs and rng.chance(1, 2)
         if use_handles and (key in hstate or rng.chance(1, 3)):
             if key not in hstate or rng.chance(1, 8):
                 steps.append(('sk' if sp() else 'k') + f' {b} {via} {t}')
                 hstate[key] = 'live'
                 continue
-            if hstate[key] == 'cancelled' or rng.chance(1, 2):
+            if (hstate[key] == 'cancelled' and not (allow_orphan and rng.chance(1, 2))) or rng.chance(1, 2):
                 q = rng.below(10)
                 if q < 5:
                     steps.append(f'A {b} {via} {t} {rng.below(4)}')
@@ -152,21 +188,26 @@ def gen_history(rng, maxlen=25):
                     steps.append(f'C {b} {via} {t}')
                     hstate[key] = 'cancelled'
                 continue
-            # handle is live: a fresh lookup returns the same mocker
-            if r < 30:
+            # handle is live: a fresh lookup returns the same mocker (orphan lane: the handle may be cancelled — it is orphaned now)
+            if hstate[key] == 'cancelled':
+                hstate[key] = 'live'      # orphaned: from now on nothing is avoided for this key
+            elif r < 30:
                 hstate[key] = 'cancelled'
         pre = 's' if sp() else ''
+        if via == 'f' and rng.chance(1, 25):
+            steps.append(f'ab {b} f {t}')      # a callback with the wrong signature: rejected before anything is patched
+            continue
         if r < 30:
             steps.append(f'{pre}c {b} {via} {t}')
             continue
         o = ''
         if rng.chance(1, 4):
-            o = ' 3' if t in T_METHODS else ('' if t in L_METHODS else f' {rng.below(3)}')
+            o = ' 3' if t in T_METHODS else ('' if (t in METHODS or t >= 18) else f' {rng.below(3)}')
         if r < 75:
             steps.append(f'{pre}a {b} {via} {t} {rng.below(4)}{o}')
         elif r < 90:
             steps.append(f'{pre}r {b} {via} {t} {rng.below(50)}{o}')
-        elif (t in METHODS and via != 'm') or t == 5:
+        elif (t in METHODS and via != 'm') or t in GENERICS:
             steps.append(f'{pre}r {b} {via} {t} {rng.below(50)}{o}')   # When(arg) needs the Struct(..).Method mocker on methods; the generic body receives a dictionary first (argument fidelity is C01)
         else:
             steps.append(f'{pre}w {b} {via} {t} {rng.below(50)}{o}')
@@ -175,20 +216,29 @@ def gen_history(rng, maxlen=25):
 
 # ------------------------------------------------------------------ probe
 
+_PROBE = {}
+
+
 def build_probe():
+    if 'bin' in _PROBE and os.path.exists(_PROBE['bin']):
+        return _PROBE['bin']
     d = os.path.join(C.HARNESS, 'c02')
     extra = dict(C.helper_pkgs())
-    extra['internal/zzverif/c02'] = {'targets.go': os.path.join(d, 'targets.go'), 'generic.go': os.path.join(d, 'generic.go'),
-                                     'zz_verif_c02_test.go': os.path.join(d, 'probe_test.go')}
-    b, err = C.overlay_build('c02', 'internal/zzverif/c02', {}, extra)
+    extra['internal/zzverif/c02x/c02'] = {'sub.go': os.path.join(d, 'sub', 'sub.go')}
+    extra['internal/zzverif/c02'] = {'targets_sub.go': os.path.join(d, 'targets_sub.go'), 'targets.go': os.path.join(d, 'targets.go'),
+                                     'generic.go': os.path.join(d, 'generic.go'), 'zz_verif_c02_test.go': os.path.join(d, 'probe_test.go')}
+    b, err = C.overlay_build('c02.' + RUN, 'internal/zzverif/c02', {}, extra)
     if b is None:
         raise C.Infra('C02 probe does not build against the current tree:\n' + err[-3000:])
+    _PROBE['bin'] = b
+    import atexit
+    atexit.register(lambda: [os.remove(f) for f in (b, os.path.join(C.BUILD, f'c02.{RUN}.overlay.json')) if os.path.exists(f)])
     return b
 
 
 def describe(binary):
-    ops = os.path.join(C.BUILD, 'c02.describe.ops')
-    outp = os.path.join(C.BUILD, 'c02.describe.out')
+    ops = os.path.join(C.BUILD, f'c02.{RUN}.describe.ops')
+    outp = os.path.join(C.BUILD, f'c02.{RUN}.describe.out')
     open(ops, 'w').write('describe\n')
     rc, log = C.run_probe(binary, 'TestVerifC02Describe', ops, outp, timeout=120)
     res = C.read_indexed(outp, 2)
@@ -197,16 +247,18 @@ def describe(binary):
     return res[0], res[1] or ''
 
 
-def run_shard(binary, lines, tag, test='TestVerifC02'):
-    """Run the probe on `lines`; a crash (SIGSEGV in patched code, fatal stack overflow) costs only the crashed history."""
-    ops = os.path.join(C.BUILD, f'c02.{tag}.ops')
-    outp = os.path.join(C.BUILD, f'c02.{tag}.impl')
+def run_shard(binary, lines, tag, test='TestVerifC02', solo=False):
+    """Run the probe on `lines`; a crash (SIGSEGV in patched code, fatal stack overflow) costs only the crashed history.
+    A history during which the process died is run once more alone in a fresh process: only a death that reproduces is
+    reported as a crash (a kill by an overloaded machine or a test timeout is not the history's fault)."""
+    ops = os.path.join(C.BUILD, f'c02.{RUN}.{tag}.ops')
+    outp = os.path.join(C.BUILD, f'c02.{RUN}.{tag}.impl')
     open(ops, 'w').write('\n'.join(lines) + '\n')
     res = [None] * len(lines)
     frm = 0
     crashes = 0
     while frm < len(lines):
-        rc, log = C.run_probe(binary, test, ops, outp, env={'VERIF_FROM': str(frm)}, timeout=900)
+        rc, log = C.run_probe(binary, test, ops, outp, env={'VERIF_FROM': str(frm)}, timeout=3600)
         got = C.read_indexed(outp, len(lines))
         nxt = len(lines)
         for i in range(frm, len(lines)):
@@ -225,14 +277,20 @@ def run_shard(binary, lines, tag, test='TestVerifC02'):
             cls = 'crash:stack-overflow'
         elif 'SIGSEGV' in log or 'unexpected signal' in log:
             cls = 'crash:signal'
-        if m and int(m[-1]) == nxt:
+        if not (m and int(m[-1]) == nxt):
+            cls = 'crash:no-output'
+        if solo:
             res[nxt] = cls
         else:
-            res[nxt] = 'crash:no-output'
+            again = run_shard(binary, [lines[nxt]], tag + '.solo', test=test, solo=True)[0]
+            res[nxt] = again if again is not None else cls
         crashes += 1
         frm = nxt + 1
         if crashes > 50:
-            raise C.Infra('C02 probe keeps crashing:\n' + log[-1500:])
+            raise C.Infra('C02 probe keeps dying:\n' + log[-1500:])
+    for f in (ops, outp):
+        if os.path.exists(f) and not os.environ.get('VERIF_KEEP'):
+            os.remove(f)
     return res
 
 
@@ -252,15 +310,20 @@ def run_impl(binary, lines, tag='run'):
 OBS = re.compile(r'^(\S+) d=(\S+) b=(\S+) n=(\S+)$')
 
 
-def oracle(hist, obs, fixok):
+def oracle(hist, obs, fixok, known=None):
     """None if the observation of one history satisfies C02, else a description of the first failure.
-    `live` is kept from the history alone: (builder, via, target) triples that were mocked and not cancelled/reset since."""
+    `live` is kept from the history alone: (builder, via, target) triples that were mocked and not cancelled/reset since.
+    Known finding F27-c02-orphan is recognised from the history alone as well: a kept handle that was cancelled, then replaced
+    in the builder's cache by a fresh lookup of the same function, then used again.  Its mocks are allowed to survive Reset;
+    when they do, a line is appended to `known` instead of failing (every other requirement stays in force)."""
     if obs is None:
         return 'no observation'
     if obs.startswith('crash'):
         return 'the process died: ' + obs
     if obs == 'env-mismatch':
-        return None
+        raise C.Infra('the probe binary sees other addresses / sizes than the describe run (PIE or a rebuilt binary?)')
+    hstate = {}        # kept handle per (builder, via, target): live | cancelled | orphan
+    orphan_live = set()
     nb, steps = hist.split(' | ')
     steps = [s.split() for s in steps.split(' ; ')]
     parts = obs.split(' ; ')
@@ -282,7 +345,29 @@ def oracle(hist, obs, fixok):
         restored = set()
         if len(st[0]) == 2 and st[0][0] == 's':
             st = [st[0][1:]] + st[1:]            # through the kept struct mocker: the same child mocker as a fresh b.Struct(x) gives
-        if st[0] in ('k', 'K'):
+        # --- kept handles, from the history alone
+        if st[0] == 'x':
+            for kk in hstate:
+                if kk[0] == st[1] and hstate[kk] == 'live':
+                    hstate[kk] = 'cancelled'
+        elif len(st) >= 4 and st[0] not in ('Y', 'K'):
+            hk = (st[1], st[2], int(st[3]))
+            if st[0] == 'k':
+                hstate[hk] = 'live'              # a fresh lookup: the handle is the builder's cache entry
+            elif st[0] in 'ARC' and hk in hstate:
+                if hstate[hk] == 'orphan':
+                    if st[0] == 'C':
+                        orphan_live.discard(hk)
+                    elif res == 'ok':
+                        orphan_live.add(hk)
+                    st = ['nop']                 # nothing the builder can be held to
+                else:
+                    hstate[hk] = 'cancelled' if st[0] == 'C' else 'live'
+            elif st[0] in ('a', 'r', 'w', 'c', 'ab') and hstate.get(hk) == 'cancelled':
+                hstate[hk] = 'orphan'            # the builder replaces its cancelled cache entry: the kept handle is on its own now
+            elif st[0] == 'c' and hstate.get(hk) == 'live':
+                hstate[hk] = 'cancelled'
+        if st[0] in ('k', 'K', 'Y'):
             st = ['nop']                         # a bare lookup mocks nothing
         elif st[0] in 'ARC':
             st = [st[0].lower()] + st[1:]        # through a kept handle: same mocker as the (builder, via, target) lookup
@@ -313,7 +398,8 @@ def oracle(hist, obs, fixok):
             if len(st) > 5:
                 used_ph.add(int(st[5]))
                 sticky[(st[1], st[2], t)] = int(st[5])
-        allowed = {t for (_, _, t) in live}
+        allowed = {t for (_, _, t) in live} | {t for (_, _, t) in orphan_live}
+        restored -= {t for (_, _, t) in orphan_live}
         dset = {} if d == '-' else dict((e.split('=', 1) + [''])[:2] for e in d.split(','))
         for sym, val in dset.items():
             if sym.startswith('o') and sym[1:].isdigit() and not val:
@@ -351,6 +437,11 @@ def oracle(hist, obs, fixok):
         return 'image could not be brought back to the snapshot after the history'
     for sym in ([] if e[0] == '-' else e[0].split(',')):
         if not re.match(r'^o\d+$', sym):
+            mm = re.match(r'^f(\d+)=jmp\(', sym)
+            if mm and known is not None and int(mm.group(1)) in {t for (_, _, t) in orphan_live}:
+                known.append(f'after Reset of every builder {sym} is still installed: it was applied through a kept handle that the '
+                             f'builder had replaced in its cache while it was cancelled')
+                continue
             return f'after Reset of every builder the image still differs at {sym}'
     return None
 
@@ -375,6 +466,22 @@ def stale_oracle(line, obs):
     return None
 
 
+# ------------------------------------------------------------------ oracle-only lane: two instantiations of one generic function with the same gc shape
+
+SHAPE = ['c02.shape']
+
+
+def shape_oracle(obs):
+    """Mocking Q[*ShA] must not alter Q[*ShB] (known finding F28-c02-gcshape: both run the one shape body goom patches)."""
+    if obs is None:
+        return 'no observation'
+    if obs.startswith('crash'):
+        return 'the process died: ' + obs
+    if obs != 'a=c1 b=o after=o,o end d=-':
+        return f'observed `{obs}`, wanted `a=c1 b=o after=o,o end d=-` (mock Q[*ShA]; call Q[*ShA], Q[*ShB]; Reset; call both)'
+    return None
+
+
 # ------------------------------------------------------------------ run
 
 def execute(hists, tag='run'):
@@ -382,10 +489,10 @@ def execute(hists, tag='run'):
     envline, layout = describe(binary)
     lines = [f'c02.hist {envline} | {h}' for h in hists]
     impl = run_impl(binary, lines, tag)
-    ops_path = os.path.join(C.BUILD, f'c02.{tag}.all.ops')
+    ops_path = os.path.join(C.BUILD, f'c02.{RUN}.{tag}.all.ops')
     open(ops_path, 'w').write('\n'.join(lines) + '\n')
     exe, err = C.build_driver()
-    model = C.run_driver(exe, ops_path, os.path.join(C.BUILD, f'c02.{tag}.model')) if exe else None
+    model = C.run_driver(exe, ops_path, os.path.join(C.BUILD, f'c02.{RUN}.{tag}.model')) if exe else None
     fixok = envline.split(' X=')[1].split(',')
     return impl, model, err, envline, layout, fixok
 
@@ -477,15 +584,39 @@ def run(tier):
         hists += [l.strip() for l in open(regress) if l.strip() and not l.startswith('#')]
     while len(hists) < n + len(CORPUS) + len(MALFORMED):
         hists.append(gen_history(rng))
-    hists = list(dict.fromkeys(hists))
+    # the orphan lane (known finding F27-c02-orphan): the generator restriction is lifted, the oracle recognises the situation
+    orng = rng.fork('orphan')
+    orphan = ['1 | k 0 f 3 ; A 0 f 3 1 ; C 0 f 3 ; c 0 f 3 ; A 0 f 3 2 ; x 0',
+              '1 | k 0 f 0 ; A 0 f 0 1 ; x 0 ; k 0 e 0 ; c 0 f 0 ; x 0 ; A 0 f 0 3 ; x 0',
+              '2 | k 1 m 8 ; A 1 m 8 1 ; x 1 ; a 1 m 8 2 ; R 1 m 8 3 ; x 1 ; x 1']
+    for _ in range(60 if tier == 'quick' else 1500):
+        orphan.append(gen_history(orng, allow_orphan=True))
+    orphan = [h for h in dict.fromkeys(orphan) if h not in set(hists)]
+    n_main = len(hists := list(dict.fromkeys(hists)))
+    hists = hists + orphan
     impl, model, derr, envline, layout, fixok = execute(hists)
+    if sum(1 for o in impl if o and '=jmp(' in o) < len(hists) // 2:
+        raise C.Infra('fewer than half of the histories ever showed an entry jump: the probe is not mocking anything')
 
     def fails_oracle(h):
         i2, _, _, _, _, fx = execute([h], tag='shrink')
         return oracle(h, i2[0], fx) is not None
 
     # 1. the property on the implementation
-    bad = [(i, h, why) for i, h in enumerate(hists) for why in [oracle(h, impl[i], fixok)] if why]
+    known_hits = []
+    bad = []
+    for i, h in enumerate(hists):
+        kn = [] if i >= n_main else None          # known findings are recognised in the orphan lane only
+        why = oracle(h, impl[i], fixok, kn)
+        if why:
+            bad.append((i, h, why))
+        elif kn:
+            known_hits.append((h, impl[i], kn[0]))
+    if known_hits:
+        h, o, what = known_hits[0]
+        out.violation(f'history `{h}`: {what}', {'kind': 'impl-oracle', 'ops': [h], 'observed': o, 'why': what,
+                                                  'histories_with_this_finding': len(known_hits),
+                                                  'how': 'python3 check.py C02 --replay <this file>'}, key='orphaned-handle')
     seen = set()
     for i, h, why in bad:
         cls = re.sub(r'\d+', 'N', why)
@@ -506,6 +637,13 @@ def run(tier):
         out.violation(f'`{l}` (m := mocker for target; mock; undo; mock again through the same handle m; Reset): {why}',
                       {'kind': 'impl-oracle-stale-handle', 'ops': [l], 'observed': o, 'why': why, 'failing_lines': len(stale_bad),
                        'how': 'python3 check.py C02 --replay <this file>'}, key='stale-handle-after-cancel')
+    # 1c. oracle-only lane: same-shape instantiations of a generic function
+    shape_obs = run_shard(binary, SHAPE, 'shape', test='TestVerifC02Stale')
+    shape_why = shape_oracle(shape_obs[0])
+    if shape_why:
+        out.violation(f'`b.Func(Q[*ShA]).Apply(cb)` and Q[*ShB]: {shape_why}',
+                      {'kind': 'impl-oracle-gcshape', 'ops': SHAPE, 'observed': shape_obs[0], 'why': shape_why,
+                       'how': 'python3 check.py C02 --replay <this file>'}, key='generic-same-shape')
     # 2. correspondence
     if model is None:
         proof['failed'].append(('goomdrv', 'driver does not build: ' + derr[-500:]))
@@ -540,9 +678,11 @@ def run(tier):
         'evaluations': sum(len(h.split(' ; ')) for h in hists), 'histories': len(hists), 'distinct_nontrivial': nontrivial,
         'traces_validated_against_impl': len(hists) - len(diffs),
         'rule': 'one evaluation = one history step, after which the whole executable image (see layout.text bytes) is compared with the snapshot and '
-                'all 17 targets + 3 neighbours are called; non-trivial = distinct history in which at least one entry jump was observed in the image',
+                'all 20 targets + 3 neighbours are called; non-trivial = distinct history in which at least one entry jump was observed in the image',
         'distribution': dict(stats(hists, impl), layout=layout, env=envline, gen_modules_changed_this_run=changed),
         'stale_handle_lane': {'lines': len(STALE), 'failing': len(stale_bad), 'note': 'oracle on the implementation only; not part of the model'},
+        'orphan_lane': {'histories': len(orphan), 'with_known_finding': len(known_hits)},
+        'gcshape_lane': {'observed': shape_obs[0]},
         'samples': [{'hist': hists[i], 'impl': impl[i], 'model': model[i] if model else None} for i in (0, len(hists) // 2, len(hists) - 1)],
     }
     out.assumptions = ['the CPU executes the bytes that are in the image (behaviour is additionally observed by calling)',
@@ -552,6 +692,11 @@ def run(tier):
 
 def replay(body):
     hists = body.get('ops', [])
+    if hists and hists[0].startswith('c02.shape'):
+        obs = run_shard(build_probe(), hists, 'shape-replay', test='TestVerifC02Stale')
+        why = shape_oracle(obs[0])
+        print(f'{hists[0]}\n  impl : {obs[0]}\n  oracle: {why or "ok"}')
+        return 1 if why else 0
     if hists and hists[0].startswith('c02.stale'):
         obs = run_shard(build_probe(), hists, 'stale-replay', test='TestVerifC02Stale')
         rc = 0
@@ -563,7 +708,9 @@ def replay(body):
     impl, model, _, envline, _, fixok = execute(hists, tag='replay')
     rc = 0
     for i, h in enumerate(hists):
-        why = oracle(h, impl[i], fixok)
+        kn = []
+        why = oracle(h, impl[i], fixok, kn)
+        why = why or (kn[0] if kn else None)
         print(f'{h}')
         a = (impl[i] or '').split(' ; ')
         b = (model[i] if model else '').split(' ; ')
